@@ -62,6 +62,8 @@ type Ctx struct {
 	initPoisoned          map[*MapV]bool
 	syllableConvertFolded bool
 	playPipelineChecked   bool
+	readArgsFold          *foldVerdict
+	circleFold            *foldVerdict
 	scalesFold            *foldVerdict
 	ticksFromClock        bool
 	forwarders            map[*ssa.Function]bool
